@@ -167,14 +167,14 @@ func c18GenIndex(t *rapid.T, maxCharts, maxEntries, nullPct int) *c18Index {
 	nc := rapid.IntRange(1, maxCharts).Draw(t, "ncharts")
 	for ci := 0; ci < nc; ci++ {
 		ch := c18Chart{Key: c18Keys[ci]}
-		if 59 - c18Uniform(t, "listNull", 60) == 0 {
+		if 59-c18Uniform(t, "listNull", 60) == 0 {
 			ch.ListNull = true
 			ix.Charts = append(ix.Charts, ch)
 			continue
 		}
 		// the null percentage is per case: most cases have no null item at all, a few have several
 		np := 0
-		if nullPct > 0 && 99 - c18Uniform(t, "nullCase", 100) < nullPct {
+		if nullPct > 0 && 99-c18Uniform(t, "nullCase", 100) < nullPct {
 			np = 25
 		}
 		n := c18Uniform(t, "nentries", maxEntries+1)
@@ -240,7 +240,7 @@ func c18GenComparator(t *rapid.T, label string, near []string) string {
 
 // c18GenConstraint draws a constraint expression: AND groups joined by "||", or a hyphen range.
 func c18GenConstraint(t *rapid.T, label string, near []string) string {
-	if 11 - c18Uniform(t, label+"Hyphen", 12) == 0 {
+	if 11-c18Uniform(t, label+"Hyphen", 12) == 0 {
 		return c18GenCVer(t, label+"Lo", near) + " - " + c18GenCVer(t, label+"Hi", near)
 	}
 	nor := c18Pick(t, label+"NOr", []int{1, 1, 1, 2})
@@ -313,7 +313,7 @@ func c18GenTags(t *rapid.T) []string {
 	var tags []string
 	for i := 0; i < n; i++ {
 		label := fmt.Sprintf("t%d", i)
-		if len(tags) > 0 && 3 - c18Uniform(t, label+"FromPrev", 4) == 0 {
+		if len(tags) > 0 && 3-c18Uniform(t, label+"FromPrev", 4) == 0 {
 			s := c18Vary(t, label, c18Pick(t, label+"Prev", tags))
 			if _, err := semver.StrictNewVersion(s); err == nil {
 				tags = append(tags, s)
@@ -329,7 +329,7 @@ func c18GenTags(t *rapid.T) []string {
 		b, _ := semver.NewVersion(perm[j])
 		return a.Compare(b) > 0
 	})
-	if 9 - c18Uniform(t, "junkTags", 10) == 0 {
+	if 9-c18Uniform(t, "junkTags", 10) == 0 {
 		nj := rapid.IntRange(1, 2).Draw(t, "njunk")
 		for i := 0; i < nj; i++ {
 			junk := c18Pick(t, "junk", []string{"latest", "stable", "nightly", "sha256-abc.sig"})
